@@ -43,6 +43,7 @@ MANIFEST = dict(
 T0 = 42000 * 40476191          # multiple of every span used (700, 1000, 1500, 2000 ms)
 STATS = "count, count(x), sum(x), min(x), max(x), avg(x), range(x), dc(x), values(x), list(x), earliest(x), latest(x)"
 GSTATS = "count, count(x), sum(x), min(x), max(x), avg(x), range(x), dc(x), values(x)"
+SSTATS = "count, sum(x), min(x), max(x), avg(x), range(x)"      # answerable from ingest-time segment statistics alone
 SPAN_TXT = {1000: "1s", 2000: "2s", 1500: "1500ms", 700: "700ms"}
 
 
@@ -192,17 +193,17 @@ def feature(events_of_group, fn, ds=None, cuts=None, fields=("x",)):
     return "plain"
 
 
-def cmp_final(f, mv, evs, f_ns=None):
+def cmp_final(f, mv, evs, f_ns=None, asked_for=None):
     """both admissible readings of numeric strings (numbers / text); the row must match one of them entirely"""
-    bad = cmp_final1(f, mv, evs)
+    bad = cmp_final1(f, mv, evs, asked_for)
     if bad and f_ns is not None and f_ns != f:
-        bad2 = cmp_final1(f_ns, mv, evs)
+        bad2 = cmp_final1(f_ns, mv, evs, asked_for)
         if not bad2:
             return []
     return bad
 
 
-def cmp_final1(f, mv, evs):
+def cmp_final1(f, mv, evs, asked_for=None):
     """f: expected Final record of the spec, mv: MeasureVal of the engine.  -> list of (measure, detail)"""
     bad = []
 
@@ -218,23 +219,25 @@ def cmp_final1(f, mv, evs):
         tol = abs(want) * Fraction(1, 10 ** 9)
         if abs(g - want) > tol:
             bad.append((name, "got %s, want %s" % (got, float(want) if want.denominator != 1 else want.numerator)))
-    if "count(*)" in mv or f["count"]:
+    asked = lambda fn: asked_for is None or fn in asked_for
+    if asked("count") and ("count(*)" in mv or f["count"]):
         numeq("count", mv.get("count(*)"), Fraction(f["count"]))
-    numeq("count-field", mv.get("count(x)"), Fraction(f["countx"]))
+    if asked("count(x)"):
+        numeq("count-field", mv.get("count(x)"), Fraction(f["countx"]))
     if f["hasnum"]:
-        numeq("sum", mv.get("sum(x)"), Fraction(f["sum"], 4))
-        numeq("min", mv.get("min(x)"), Fraction(f["min"], 4))
-        numeq("max", mv.get("max(x)"), Fraction(f["max"], 4))
-        numeq("avg", mv.get("avg(x)"), Fraction(f["avgnum"], 4 * f["avgden"]))
+        for fn, name, want in (("sum(x)", "sum", Fraction(f["sum"], 4)), ("min(x)", "min", Fraction(f["min"], 4)),
+                               ("max(x)", "max", Fraction(f["max"], 4)), ("avg(x)", "avg", Fraction(f["avgnum"], 4 * f["avgden"]))):
+            if asked(fn):
+                numeq(name, mv.get(fn), want)
         if "range(x)" in mv:
             numeq("range", mv.get("range(x)"), Fraction(f["range"], 4))
     # distinct count: by spelling or by numeric value (the statement does not say whether 2 and "2" are distinct)
     dc = mv.get("cardinality(x)")
-    if dc is None or int(dc) not in (f["dc"], f["dcnum"]):
+    if asked("dc(x)") and (dc is None or int(dc) not in (f["dc"], f["dcnum"])):
         if not (dc is None and f["dc"] == 0):
             bad.append(("dc", "got %r, want %s" % (dc, sorted(set([f["dc"], f["dcnum"]])))))
     want_vals = sorted(set(canon_spec(v) for v in f["values"]))
-    if "values(x)" in mv or want_vals:
+    if asked("values(x)") and ("values(x)" in mv or want_vals):
         got_vals = tokens(mv.get("values(x)"))
         if sorted(set(got_vals)) != want_vals or len(got_vals) != len(set(got_vals)):
             bad.append(("values", "got %s, want %s" % (got_vals, want_vals)))
@@ -276,7 +279,8 @@ def check_case(case, results):
                 if len(rows) != 1:
                     out.append(("C04:plain:global:rows", "[%s] `%s` returned %d rows" % (path, q["text"], len(rows))))
                     continue
-                for m, detail in cmp_final(beh["global"], rows[0][2], ds, beh.get("global_ns")):
+                asked_for = [x.strip() for x in q["stats"].split(",")]
+                for m, detail in cmp_final(beh["global"], rows[0][2], ds, beh.get("global_ns"), asked_for):
                     out.append(("C04:%s:global:%s" % (feature(ds, m, ds, cuts), m), "[%s] `%s`: %s: %s" % (path, q["text"], m, detail)))
             elif kind == "groupby":
                 exp = {gkey_spec(rw["key"]): rw for rw in beh["rows"]}
@@ -290,6 +294,8 @@ def check_case(case, results):
                         out.append(("C04:%s:groupby:key-twice" % ("null-key" if k[1] else "part-lacks-field" if part_lacks(ds, cuts, "g") else
                                                                   "mixed-type-group-column" if len(set(e["g"]["k"] for e in ds) - {"absent"}) > 1 else "plain"),
                                     "[%s] `%s`: group key %r appears in %d rows" % (path, q["text"], k, len(mvs))))
+                    if len(mvs) > 1:
+                        continue        # the rows of a duplicated key are not compared one by one (reported as key-twice)
                     if k not in exp:
                         out.append(("C04:%s:groupby:key-invented" % ("part-lacks-field" if part_lacks(ds, cuts, "g") else "keys=" + gfeat), "[%s] `%s`: row for key %r, occurring keys are %s" % (
                             path, q["text"], k, sorted(exp))))
@@ -413,6 +419,8 @@ def build_case(idx, mode, beh):
     qs = []
     for pname, pre in (("star", "*"), ("filt", "id>=1")):
         qs.append(dict(name="global/" + pname, kind="global", stats=STATS, text="%s | stats %s" % (pre, STATS), start=wide[0], end=wide[1]))
+        qs.append(dict(name="simple/" + pname, kind="global", stats=SSTATS, text="%s | stats %s" % (pre, SSTATS), start=wide[0], end=wide[1]))
+        qs.append(dict(name="avgonly/" + pname, kind="global", stats="avg(x)", text="%s | stats avg(x)" % pre, start=wide[0], end=wide[1]))
         qs.append(dict(name="groupby/" + pname, kind="groupby", stats=GSTATS, text="%s | stats %s by g" % (pre, GSTATS), start=wide[0], end=wide[1]))
     if mode == "bucket":
         for span in (1000, 1500, 2000, 700):
@@ -531,10 +539,11 @@ def run(chk):
             if q["kind"] not in ("global", "groupby"):
                 continue
             t0 = tables(base_res, q)
+            dup = lambda t: len(set((r[0], r[1]) for r in t)) != len(t)
             for case, res in lst[1:]:
                 t1 = tables(res, q)
                 for p in sorted(set(t0) & set(t1)):
-                    if t0[p] != t1[p]:
+                    if t0[p] != t1[p] and not dup(t0[p]) and not dup(t1[p]):
                         ds, cuts = case["beh"]["ds"], case["beh"]["cuts"]
                         key = "C04:%s:segmentation-dependent:%s" % (feature(ds, "", ds, cuts, ("x", "g")), q["kind"])
                         what = "[%s] `%s` on the same dataset %s: segmentation %s gives %s, segmentation %s gives %s" % (
